@@ -342,6 +342,388 @@ func c05_genC05(repo string) string {
 		}
 		return strings.Join(q, ", ")
 	}())
+	c05_objectTypes(im, &sb)
+	c05_printableDispatch(im, &sb)
+	c05_formatSites(repo, &sb)
 	sb.WriteString("\nend Risor.Generated.C05\n")
 	return sb.String()
+}
+
+// ---------------------------------------------------------------------------------------
+// rendering: every type of package object that implements object.Object, whether it has a
+// String() method, and which operands of the fmt calls inside its Inspect()/String() bodies
+// could print an address (a %p verb; an operand whose static type is a pointer, channel,
+// func, unsafe.Pointer, uintptr, a map/slice of those, or an interface other than error).
+
+func c05_addrKind(t types.Type) string {
+	if t == nil {
+		return "untyped"
+	}
+	if n, ok := t.(*types.Named); ok && n.Obj().Pkg() == nil && n.Obj().Name() == "error" {
+		return ""
+	}
+	switch u := t.Underlying().(type) {
+	case *types.Pointer:
+		return "ptr"
+	case *types.Chan:
+		return "chan"
+	case *types.Signature:
+		return "func"
+	case *types.Interface:
+		return "iface"
+	case *types.Map:
+		if k := c05_addrKind(u.Elem()); k != "" {
+			return "map-of-" + k
+		}
+		return c05_addrKind(u.Key())
+	case *types.Slice:
+		if k := c05_addrKind(u.Elem()); k != "" {
+			return "slice-of-" + k
+		}
+	case *types.Array:
+		if k := c05_addrKind(u.Elem()); k != "" {
+			return "array-of-" + k
+		}
+	case *types.Basic:
+		if u.Kind() == types.UnsafePointer || u.Kind() == types.Uintptr {
+			return "uintptr"
+		}
+	case *types.Struct:
+		for i := 0; i < u.NumFields(); i++ {
+			if k := c05_addrKind(u.Field(i).Type()); k != "" {
+				return "struct-with-" + k
+			}
+		}
+	}
+	return ""
+}
+
+// verbs of a Printf-style format, one per consumed operand ("*" widths count as operands)
+func c05_verbs(format string) []string {
+	var out []string
+	for i := 0; i < len(format); i++ {
+		if format[i] != '%' {
+			continue
+		}
+		j := i + 1
+		for j < len(format) && strings.ContainsRune("+-# 0123456789.[]", rune(format[j])) {
+			j++
+		}
+		if j < len(format) && format[j] == '*' {
+			out = append(out, "%*")
+			j++
+		}
+		if j >= len(format) {
+			break
+		}
+		if format[j] != '%' {
+			out = append(out, "%"+string(format[j]))
+		}
+		i = j
+	}
+	return out
+}
+
+func c05_fmtOperands(info *types.Info, body *ast.BlockStmt) string {
+	set := map[string]bool{}
+	ast.Inspect(body, func(n ast.Node) bool {
+		call, ok := n.(*ast.CallExpr)
+		if !ok {
+			return true
+		}
+		sel, ok := call.Fun.(*ast.SelectorExpr)
+		if !ok {
+			return true
+		}
+		id, ok := sel.X.(*ast.Ident)
+		if !ok || id.Name != "fmt" {
+			return true
+		}
+		name := sel.Sel.Name
+		args := call.Args
+		if strings.HasPrefix(name, "F") && len(args) > 0 {
+			args = args[1:]
+		}
+		var verbs []string
+		if strings.HasSuffix(name, "f") {
+			if len(args) == 0 {
+				return true
+			}
+			lit, ok := args[0].(*ast.BasicLit)
+			if !ok {
+				set["format-not-literal"] = true
+				return true
+			}
+			verbs = c05_verbs(lit.Value)
+			args = args[1:]
+		} else {
+			for range args {
+				verbs = append(verbs, "%v")
+			}
+		}
+		for i, a := range args {
+			verb := "%?"
+			if i < len(verbs) {
+				verb = verbs[i]
+			}
+			if verb == "%p" {
+				set["%p"] = true
+				continue
+			}
+			if verb == "%T" {
+				continue
+			}
+			var t types.Type
+			if tv, ok := info.Types[a]; ok {
+				t = tv.Type
+			}
+			if k := c05_addrKind(t); k != "" {
+				set[k+":"+verb] = true
+			}
+		}
+		return true
+	})
+	var out []string
+	for k := range set {
+		out = append(out, k)
+	}
+	sort.Strings(out)
+	return strings.Join(out, ",")
+}
+
+func c05_objectTypes(im *c05_repoImporter, sb *strings.Builder) {
+	path := c05_risorModule + "/object"
+	pkg := im.cache[path]
+	info := im.infos[path]
+	if pkg == nil || info == nil {
+		panic("package object was not type-checked")
+	}
+	objTN, _ := pkg.Scope().Lookup("Object").(*types.TypeName)
+	if objTN == nil {
+		panic("object.Object not found")
+	}
+	iface, ok := objTN.Type().Underlying().(*types.Interface)
+	if !ok {
+		panic("object.Object is not an interface")
+	}
+	bodies := map[string]*ast.BlockStmt{} // "Type.Method"
+	for _, f := range im.files[path] {
+		for _, d := range f.Decls {
+			fd, ok := d.(*ast.FuncDecl)
+			if !ok || fd.Body == nil || fd.Recv == nil {
+				continue
+			}
+			if fd.Name.Name == "Inspect" || fd.Name.Name == "String" {
+				bodies[c05_recvName(fd)+"."+fd.Name.Name] = fd.Body
+			}
+		}
+	}
+	type row struct {
+		name            string
+		hasString       bool
+		inspOps, strOps string
+	}
+	var rows []row
+	names := pkg.Scope().Names()
+	sort.Strings(names)
+	for _, n := range names {
+		tn, ok := pkg.Scope().Lookup(n).(*types.TypeName)
+		if !ok || tn.IsAlias() {
+			continue
+		}
+		named, ok := tn.Type().(*types.Named)
+		if !ok {
+			continue
+		}
+		if _, isIface := named.Underlying().(*types.Interface); isIface {
+			continue
+		}
+		ptr := types.NewPointer(named)
+		if !types.Implements(ptr, iface) && !types.Implements(named, iface) {
+			continue
+		}
+		r := row{name: n}
+		ms := types.NewMethodSet(ptr)
+		for i := 0; i < ms.Len(); i++ {
+			m := ms.At(i).Obj()
+			if m.Name() != "String" {
+				continue
+			}
+			if sig, ok := m.Type().(*types.Signature); ok && sig.Params().Len() == 0 && sig.Results().Len() == 1 {
+				if b, ok := sig.Results().At(0).Type().(*types.Basic); ok && b.Kind() == types.String {
+					r.hasString = true
+				}
+			}
+		}
+		if b := bodies[n+".Inspect"]; b != nil {
+			r.inspOps = c05_fmtOperands(info, b)
+		} else {
+			r.inspOps = "no-own-Inspect"
+		}
+		if b := bodies[n+".String"]; b != nil {
+			r.strOps = c05_fmtOperands(info, b)
+		} else if r.hasString {
+			r.strOps = "promoted"
+		}
+		rows = append(rows, r)
+	}
+	if len(rows) < 20 {
+		panic(fmt.Sprintf("only %d types implementing object.Object found: the type information is incomplete", len(rows)))
+	}
+	sb.WriteString("\n/-- every type of package object that implements object.Object:\n")
+	sb.WriteString("    (type, has a String() string method, address-capable fmt operands in Inspect(), the same in String()) -/\n")
+	sb.WriteString("def objectTypes : List (String × Bool × String × String) := [\n")
+	for i, r := range rows {
+		sep := ","
+		if i == len(rows)-1 {
+			sep = ""
+		}
+		fmt.Fprintf(sb, "  (%s, %v, %s, %s)%s\n", leanStr(r.name), r.hasString, leanStr(r.inspOps), leanStr(r.strOps), sep)
+	}
+	sb.WriteString("]\n")
+}
+
+// the dispatch of object.PrintableValue: every case of its type switches in order (types, the
+// returned expression), then every return statement at the top level of the body
+func c05_printableDispatch(im *c05_repoImporter, sb *strings.Builder) {
+	path := c05_risorModule + "/object"
+	var rows [][2]string
+	found := false
+	for _, f := range im.files[path] {
+		for _, d := range f.Decls {
+			fd, ok := d.(*ast.FuncDecl)
+			if !ok || fd.Body == nil || fd.Recv != nil || fd.Name.Name != "PrintableValue" {
+				continue
+			}
+			found = true
+			retText := func(stmts []ast.Stmt) string {
+				var parts []string
+				for _, s := range stmts {
+					if r, ok := s.(*ast.ReturnStmt); ok {
+						var xs []string
+						for _, x := range r.Results {
+							xs = append(xs, types.ExprString(x))
+						}
+						parts = append(parts, strings.Join(xs, ", "))
+					} else {
+						parts = append(parts, fmt.Sprintf("<%T>", s))
+					}
+				}
+				return strings.Join(parts, "; ")
+			}
+			for _, s := range fd.Body.List {
+				switch x := s.(type) {
+				case *ast.TypeSwitchStmt:
+					for _, c := range x.Body.List {
+						cc := c.(*ast.CaseClause)
+						var tys []string
+						for _, t := range cc.List {
+							tys = append(tys, types.ExprString(t))
+						}
+						label := strings.Join(tys, ",")
+						if cc.List == nil {
+							label = "default"
+						}
+						rows = append(rows, [2]string{label, retText(cc.Body)})
+					}
+				case *ast.ReturnStmt:
+					rows = append(rows, [2]string{"return", retText([]ast.Stmt{x})})
+				default:
+					rows = append(rows, [2]string{fmt.Sprintf("<%T>", s), ""})
+				}
+			}
+		}
+	}
+	if !found {
+		panic("object.PrintableValue not found")
+	}
+	sb.WriteString("\n/-- object.PrintableValue: the cases of its type switches in order (types, returned expression),\n")
+	sb.WriteString("    then any statement at the top level of its body -/\n")
+	sb.WriteString("def printableDispatch : List (String × String) := [\n")
+	for i, r := range rows {
+		sep := ","
+		if i == len(rows)-1 {
+			sep = ""
+		}
+		fmt.Fprintf(sb, "  (%s, %s)%s\n", leanStr(r[0]), leanStr(r[1]), sep)
+	}
+	sb.WriteString("]\n")
+}
+
+// the functions of builtins, modules/fmt and modules/errors that turn script values into fmt
+// operands, and how: through object.PrintableValue or through Object.Interface()
+func c05_formatSites(repo string, sb *strings.Builder) {
+	var rows [][2]string
+	for _, rel := range []string{"builtins", "modules/errors", "modules/fmt"} {
+		dir := filepath.Join(repo, rel)
+		ents, err := os.ReadDir(dir)
+		if err != nil {
+			panic(err)
+		}
+		fset := token.NewFileSet()
+		for _, e := range ents {
+			name := e.Name()
+			if e.IsDir() || !strings.HasSuffix(name, ".go") || strings.HasSuffix(name, "_test.go") {
+				continue
+			}
+			f, err := parser.ParseFile(fset, filepath.Join(dir, name), nil, 0)
+			if err != nil {
+				panic(err)
+			}
+			for _, d := range f.Decls {
+				fd, ok := d.(*ast.FuncDecl)
+				if !ok || fd.Body == nil {
+					continue
+				}
+				how := map[string]bool{}
+				fmtCall := false
+				ast.Inspect(fd.Body, func(n ast.Node) bool {
+					call, ok := n.(*ast.CallExpr)
+					if !ok {
+						return true
+					}
+					sel, ok := call.Fun.(*ast.SelectorExpr)
+					if !ok {
+						return true
+					}
+					if id, ok := sel.X.(*ast.Ident); ok {
+						if id.Name == "object" && sel.Sel.Name == "PrintableValue" {
+							how["PrintableValue"] = true
+						}
+						if call.Ellipsis.IsValid() && (id.Name == "fmt" || (id.Name == "object" && strings.HasSuffix(sel.Sel.Name, "rrorf"))) {
+							fmtCall = true
+						}
+					}
+					if sel.Sel.Name == "Interface" && len(call.Args) == 0 {
+						how["Interface"] = true
+					}
+					return true
+				})
+				if how["PrintableValue"] || (how["Interface"] && fmtCall) {
+					var hs []string
+					for k := range how {
+						hs = append(hs, k)
+					}
+					sort.Strings(hs)
+					fn := filepath.Base(rel) + "." + fd.Name.Name
+					if r := c05_recvName(fd); r != "" {
+						fn = filepath.Base(rel) + "." + r + "." + fd.Name.Name
+					}
+					rows = append(rows, [2]string{fn, strings.Join(hs, ",")})
+				}
+			}
+		}
+	}
+	sort.Slice(rows, func(i, j int) bool { return rows[i][0] < rows[j][0] })
+	sb.WriteString("\n/-- the functions of builtins, modules/fmt, modules/errors that hand script values to a fmt verb,\n")
+	sb.WriteString("    and through what: object.PrintableValue or Object.Interface() -/\n")
+	sb.WriteString("def formatSites : List (String × String) := [\n")
+	for i, r := range rows {
+		sep := ","
+		if i == len(rows)-1 {
+			sep = ""
+		}
+		fmt.Fprintf(sb, "  (%s, %s)%s\n", leanStr(r[0]), leanStr(r[1]), sep)
+	}
+	sb.WriteString("]\n")
 }
